@@ -127,6 +127,9 @@ OPERATION_NAMES = (
     "TO_BOOL",
     # Binary and in-place operations
     "BINARY_OP",
+    # Context managers (not jumps, see python3_11)
+    "BEFORE_WITH",
+    "BEFORE_ASYNC_WITH",
 )
 
 # Regrouping opcodes
